@@ -67,12 +67,27 @@ def _sig_eof_insert(e) -> bool:
             and "fill_transaction" in e["frames"] and _last_line_in_if_else(e["input"]))
 
 
-SIGS = {"literal_value_escape": _sig_literal_value, "non_ascii_identifier": _sig_non_ascii,
+def _sig_range_step(e) -> bool:
+    # sum/len-style aggregate over range(a, b, step) with a symbolic bound: math.floor() of a sympy expression
+    if e["type"] != "TypeError" or "_integrate_over" not in e["frames"]:
+        return False
+    tree, _ = _parse_module_or_fragment(e["input"])
+    if tree is None:
+        return False
+    for n in ast.walk(tree):
+        if isinstance(n, ast.Call) and isinstance(n.func, ast.Name) and n.func.id == "range" and len(n.args) == 3 \
+                and any(not isinstance(a, ast.Constant) for a in n.args):
+            return True
+    return False
+
+
+SIGS = {"range_step_symbolic_bound": _sig_range_step, "literal_value_escape": _sig_literal_value, "non_ascii_identifier": _sig_non_ascii,
         "insertion_after_last_line": _sig_eof_insert}
-SITE_OF_SIG = {"literal_value_escape": "core.literal_value", "non_ascii_identifier": "style.rename_variable",
+SITE_OF_SIG = {"range_step_symbolic_bound": "symbolic_math._integrate_over", "literal_value_escape": "core.literal_value", "non_ascii_identifier": "style.rename_variable",
                "insertion_after_last_line": "core.get_charnos"}
 
 WITNESS = {
+    "F04-9": ["import sys\nn = len(sys.argv)\nprint(sum([3 for z in range(2, n, 3)]))\n"],
 }
 FIXED_WITNESS = {
     "F04-3": ["é = 1\nprint(é)\n"],
@@ -82,6 +97,9 @@ FIXED_WITNESS = {
     "F04-4": ["if a:\n    x()\n    z()\nelse:\n    y()\n    z()\n",
               "    if a:\n        x()\n        z()\n    else:\n        y()\n        z()\n"],
     "F04-5": ["x = 1 < 'a'\nprint(x)\n", "print([1] <= 2)\n"],
+    "F04-7": ["print(sum([3 for z in []]))\n"],
+    "F04-8": ["def f(x, y):\n    items = []\n    items.append(x + y)\n    return items\n\n\ng_xs = [1, 2]\n"
+              "for k in dict(zip(g_xs, g_xs)).keys():\n    pass\nprint(f(1, 2))\n"],
     "F04-6": ["if a:\n    x()\n    z()\nelse:\n    y()\n    z()",
               "def f():\n    if a:\n        x()\n        z()\n    else:\n        y()\n        z()",
               "    if a:\n        x()\n        z()\n    else:\n        y()\n        z()"],
@@ -171,7 +189,7 @@ def check(run: common.Run):
             elif which == "fix3":
                 out = processing.fix(rule, max_iter=3)("a0\n")
             else:
-                out = processing.chain([rule])("a0\n")
+                out = processing.chain(r for r in [rule])("a0\n")      # an iterator: materialised once
         if len(calls) != mi or out != f"a{mi}\n":
             disagreements.append({"kind": "correspondence", "kernel": "K1 fix/chain pass bound (T04.1')",
                                   "case": {"which": which, "max_iter": mi, "passes": len(calls), "out": out}})
@@ -185,7 +203,7 @@ def check(run: common.Run):
     step = {"quick": {"constants": 2, "functions": 3, "repo": 6, "constructs": 1, "blank_runs": 3}, "thorough": {}}[run.tier]
     extra = [w for ws in list(WITNESS.values()) + list(FIXED_WITNESS.values()) for w in ws]
     fam["witnesses"] = extra
-    for name in ("witnesses", "imports", "resources", "invalid", "indented", "tabs", "eof", "constructs", "constants",
+    for name in ("witnesses", "tiny", "imports", "resources", "aggregates", "invalid", "indented", "tabs", "eof", "constructs", "constants",
                  "functions", "repo", "blank_runs"):
         srcs = fam[name][::step.get(name, 1)]
         for i, s in enumerate(srcs):
@@ -193,8 +211,10 @@ def check(run: common.Run):
                 combos = sw.OPTION_COMBOS
             elif name == "imports":        # keep_imports decides whether the import tracers run
                 combos = [sw.OPTION_COMBOS[j] for j in (0, 2, 5, 7)]
-            elif name == "resources":
-                combos = [sw.OPTION_COMBOS[j] for j in (0, 5)]
+            elif name == "tiny":
+                combos = [sw.OPTION_COMBOS[j] for j in (0, 7)]
+            elif name in ("resources", "aggregates"):
+                combos = [sw.OPTION_COMBOS[j] for j in ((0, 5) if name == "resources" else (i % 8,))]
             elif name == "constructs":
                 combos = [sw.OPTION_COMBOS[j] for j in (i % 8, (i + 3) % 8, (i + 5) % 8, (i + 6) % 8)]
             else:
